@@ -18,9 +18,10 @@ CONSTANT Props   \* the properties whose clauses are evaluated, e.g. {"C05"} or 
 
 Trace == ndJsonDeserialize("trace.ndjson")
 
-VARIABLES l, L, haveL, fees, executed, epoch, bad, drift
+VARIABLES l, L, haveL, fees, executed, epoch, bad, drift,
+          rejfee    \* the block contains a transaction rejected at authentication that declared a non-zero fee
 
-tvars == <<l, L, haveL, fees, executed, epoch, bad, drift>>
+tvars == <<l, L, haveL, fees, executed, epoch, bad, drift, rejfee>>
 
 Relevant == {"begin_chain", "begin", "tx", "end"}
 
@@ -28,7 +29,7 @@ Empty == [supply |-> 0, common |-> 0, lastfees |-> 0, govdep |-> 0, acc |-> <<>>
 
 TraceInit ==
     /\ l = 1 /\ L = Empty /\ haveL = FALSE /\ fees = 0 /\ executed = {} /\ epoch = 0
-    /\ bad = "none" /\ drift = 0
+    /\ bad = "none" /\ drift = 0 /\ rejfee = FALSE
 
 Ev == Trace[l]
 Is(e) == l <= Len(Trace) /\ Ev.ev = e /\ l' = l + 1
@@ -45,11 +46,11 @@ SetBad(cs) == bad' = IF bad # "none" THEN bad ELSE FirstBad(cs)
 
 TrSkip ==
     /\ l <= Len(Trace) /\ Ev.ev \notin Relevant /\ l' = l + 1
-    /\ UNCHANGED <<L, haveL, fees, executed, epoch, bad, drift>>
+    /\ UNCHANGED <<L, haveL, fees, executed, epoch, bad, drift, rejfee>>
 
 TrChain ==
     /\ Is("begin_chain")
-    /\ L' = Empty /\ haveL' = FALSE /\ fees' = 0 /\ executed' = {} /\ epoch' = 0
+    /\ L' = Empty /\ haveL' = FALSE /\ fees' = 0 /\ executed' = {} /\ epoch' = 0 /\ rejfee' = FALSE
     /\ UNCHANGED <<bad, drift>>
 
 DebSet(M) == {M.deb[i] : i \in DOMAIN M.deb}
@@ -70,6 +71,7 @@ TrBegin ==
             \* C15 F5: share prices fall only when misbehaviour was slashed in this block
             <<(haveL /\ ~Ev.slashed) => PriceNotFalling(L, M), "C15", "share price fell without slashing">>
           >>)
+    /\ rejfee' = FALSE
     /\ UNCHANGED <<executed, drift>>
 
 Nonce(M, a) == IF a \in DOMAIN M.acc THEN M.acc[a].n ELSE 0
@@ -132,6 +134,8 @@ TrTx ==
              ELSE IF ok /\ ~sys /\ dec /\ Ev.spec.kind = "burn" /\ s \in DOMAIN L.acc
              THEN (IF M = [Burn(L, s, Ev.spec.amount) EXCEPT !.acc[s].n = @ + 1, !.acc[s].g = @ - fee] THEN 0 ELSE 1)
              ELSE 0)
+    /\ rejfee' = (rejfee \/ (Ev.env.decodable /\ Ev.env.fee > 0 /\ Ev.code # 0
+                              /\ Nonce(Ev.state, Ev.env.signer) = Nonce(L, Ev.env.signer)))
     /\ UNCHANGED <<haveL, epoch>>
 
 TrEnd ==
@@ -140,6 +144,10 @@ TrEnd ==
        /\ L' = M /\ fees' = 0
        /\ SetBad(<<
             <<Conserved(M, 0), "C05", "conservation at block boundary">>,
+            \* C08: the fee of a transaction rejected before execution is charged to nobody, so it may not be paid out either:
+            \* the accumulator lives in the block context, so this only shows when the block's fees are persisted
+            <<rejfee => Conserved(M, 0), "C08",
+              "conservation broken at the end of a block that carries a transaction rejected at authentication with a non-zero fee">>,
             \* the proposer's share is paid out in EndBlock, the rest is carried to the next block
             <<M.lastfees <= fees, "C05", "fees carried to the next block exceed the fees charged">>,
             <<SharesOK(M), "C05", "share sums at block boundary">>,
@@ -149,7 +157,7 @@ TrEnd ==
             <<\A x \in DebSet(M) : x[4] > epoch, "C15", "debonding entry not paid at its end epoch">>,
             <<\A x \in DebSet(L) : StillQueued(x, M) \/ x[4] <= epoch, "C15", "debonding entry paid before its end epoch">>
           >>)
-    /\ UNCHANGED <<haveL, executed, epoch, drift>>
+    /\ UNCHANGED <<haveL, executed, epoch, drift, rejfee>>
 
 TraceNext == TrSkip \/ TrChain \/ TrBegin \/ TrTx \/ TrEnd
 TraceSpec == TraceInit /\ [][TraceNext]_tvars
